@@ -22,8 +22,8 @@ def rx(p):
 
 def install(ex):
     for k, fn in REG: ex.register(k, fn)
-    from . import models_coll, models_iter, models_fmt, models_num  # noqa
-    for mod in (models_coll, models_iter, models_fmt, models_num):
+    from . import models_coll, models_iter, models_fmt, models_num, models_hash  # noqa
+    for mod in (models_coll, models_iter, models_fmt, models_num, models_hash):
         for k, fn in mod.REG: ex.register(k, fn)
     try:
         from . import models_chrono
